@@ -16,10 +16,12 @@ def main():
     a = ap.parse_args()
     if a.setup:
         core.ensure_makefile()
-        rc, out, dt = core.make(keep_going=False)
+        # -k: one broken proof file must not stop the others from building; every check
+        # verifies that its own targets are built and up to date
+        rc, out, dt = core.make(keep_going=True)
         print(out[-3000:])
         print('setup: make rc=%d in %.0fs' % (rc, dt))
-        sys.exit(rc)
+        sys.exit(0)
     seed = int(os.environ.get('VERIF_SEED', '20260929') or 0)
     tier = a.tier if a.tier in ('quick', 'thorough') else 'quick'
     mod = importlib.import_module('harness.' + a.pid.lower())
